@@ -58,7 +58,7 @@ def decode(d):
         derive = d.choice(["copy", "mul"])
     elif fam == "path":
         obj = ["path", gen.path_segments(d, max_subpaths=3, max_segs=3, c=c), gen.matrix(d, classes=MATS)["m"] if d.bool() else None, d.bool()]
-        derive = d.choice(["copy", "mul", "abs", "Path(x)", "Path(subpath)", "add"])
+        derive = d.choice(["copy", "mul", "abs", "Path(x)", "Path(subpath)", "add", "other+subpath", "copy(subpath)", "subpath*M"])
     elif fam == "shape":
         sp = c02.shape_params(d)
         if d.chance(1, 8):
@@ -267,6 +267,18 @@ def derive(x, case):
         if not subs:
             return se.Path(x), []
         return se.Path(subs[case["muts"][0][3] % len(subs)]), []
+    if name in ("other+subpath", "copy(subpath)", "subpath*M"):
+        # results made from a subpath view of x: they are paths (or views of a new path) of their own
+        subs = list(x.as_subpaths())
+        if not subs:
+            return se.Path(x), []
+        sub = subs[case["muts"][0][3] % len(subs)]
+        if name == "other+subpath":
+            other = se.Path("M 5,5 L 6,7 Q 1,1 2,2")
+            return other + sub, [other]
+        if name == "copy(subpath)":
+            return se.Path(_copy.copy(sub)), []
+        return se.Path(sub * M), [M]
     if name == "add":
         if isinstance(x, se.Point):
             q = se.Point(1.0, 2.0)
